@@ -302,6 +302,9 @@ func visitInstr(fr *frame, instr ssa.Instruction) continuation {
 			sp.cells[k] = fr.get(instr.Val)
 		} else {
 			addr := fr.get(instr.Addr).(*value)
+			if inHarnessPhase {
+				checkGlobalStore(fr, instr.Addr, instr.Pos())
+			}
 			if len(released) != 0 {
 				checkReleased(fr, addr, instr.Pos())
 			}
@@ -451,6 +454,9 @@ func visitInstr(fr *frame, instr ssa.Instruction) continuation {
 		v := fr.get(instr.Value)
 		if isSym(key) {
 			unsup("symbolic map key (update)")
+		}
+		if inHarnessPhase {
+			checkGlobalMapUpdate(fr, m, instr.Pos())
 		}
 		switch m := m.(type) {
 		case map[value]value:
@@ -613,6 +619,9 @@ func callSSA(i *interpreter, caller *frame, callpos token.Pos, fn *ssa.Function,
 		}
 		if fn.Blocks == nil {
 			unsup("no code for function: %s", name)
+		}
+		if strings.HasPrefix(name, "(*regexp.Regexp).") {
+			unsup("regexp model: method not modelled: %s", name)
 		}
 	}
 
